@@ -152,6 +152,25 @@ pub fn check(env: &Env, c: &Case, st: &mut Stats) -> CaseResult {
             }
             st.class("compared_with_newly_loaded_context");
         }
+        // `ans`, `ANS` and `_` on their own denote exactly the model's previous answer
+        let bare = q.trim();
+        if bare == "ans" || bare == "ANS" || bare == "_" {
+            st.class("bare_ans_query");
+            match (&model, &got) {
+                (Some(m), Ok(QueryReply::Number(p))) if p.raw_value.as_ref() == Some(m) => {}
+                (Some(m), Ok(QueryReply::Duration(d))) if d.raw.raw_value.as_ref() == Some(m) => {}
+                (None, Err(_)) => {}
+                (m, g) => {
+                    return fail(
+                        env,
+                        st,
+                        "ans-does-not-denote-previous-answer",
+                        q,
+                        format!("step {} `{}` after {:?}: the previous answer is {:?} but the reply is {}", i, q, &c.queries[..i], m, short(&to_json(g))),
+                    );
+                }
+            }
+        }
         // reference model of `ans`
         match &got {
             Ok(QueryReply::Number(p)) => {
